@@ -1,8 +1,11 @@
 (* C02 -- no request reaches a filesystem object outside the configured roots.
    Property theorems only; proofs in Url/UrlProofs.v.  The model (Url/UrlModel.v) is tied to
    src/burl.c, src/buffer.c, src/request.c by Gen/GenBurl.v and by exhaustive differential
-   correspondence (harness/url_h.c <-> extracted model). *)
-From LV Require Import Base.Bytes Gen.GenBurl Url.UrlModel Url.UrlProofs.
+   correspondence (harness/url_h.c <-> extracted model).  The mapping stages after the URL pipeline (Roots/RootsModel.v: alias,
+   simple-vhost, evhost, userdir, X-Sendfile, WebDAV Destination, symlink walk, and their composition in http_response_prepare)
+   are tied by harness/roots_h.c, by the running server (props/roots.py) and, for the order of the X-Sendfile / Destination
+   steps, by Gen/GenRoots.v which is re-read from the source on every run. *)
+From LV Require Import Base.Bytes Gen.GenBurl Gen.GenRoots Url.UrlModel Url.UrlProofs Roots.RootsModel Roots.RootsProofs.
 Local Open Scope N_scope.
 
 (* buffer_path_simplify never leaves a "." or ".." segment, for every input (absolute or not,
@@ -31,3 +34,82 @@ Example c02_nonvacuous :
   parse_target 9560 [47;97;47;37;50;101;37;50;69;47;37;50;102;46;46;47;120] (* "/a/%2e%2E/%2f../x" *)
   = TOk [47;120] [47;120] None.
 Proof. vm_compute. reflexivity. Qed.
+
+(* ---- mapping stages ---- *)
+
+(* mod_alias: with dot-free absolute alias targets, the remapped path is <target> ++ <rest of the URL path> and stays dot-free: the
+   403 guard is exactly what keeps "/key../x" from climbing out of a target that ends in '/' *)
+Theorem alias_remap_stays_under_target : forall al basedir pre uri p b,
+  Forall (fun kv => nodot (snd kv) /\ absp (snd kv)) al ->
+  length pre = (length basedir - (if ends_slash_b basedir then 1 else 0))%nat ->
+  absp uri -> nodot uri ->
+  alias_remap al basedir (pre ++ uri) = AliasTo p b ->
+  exists k rest, In (k, b) al /\ uri = k ++ rest /\ p = b ++ rest /\ nodot p.
+Proof. exact alias_contained. Qed.
+Print Assumptions alias_remap_stays_under_target.
+
+(* mod_simple_vhost: whatever the Host (under the non-strict guard, or any host without '/' and leading '.' in strict mode), the
+   document root is <server-root> ++ ... and dot-free *)
+Theorem vhost_root_under_server_root : forall isdir strict sroot droot dhost auth p,
+  nodot sroot -> ends_slash_b sroot = true ->
+  match droot with Some d => nodot d | None => True end ->
+  match dhost with Some a => host_ok a | None => True end ->
+  (strict = true -> host_ok auth) ->
+  svh_docroot isdir strict sroot droot dhost auth = Some p ->
+  nodot p /\ exists rest, p = sroot ++ rest.
+Proof. exact svh_docroot_contained. Qed.
+Print Assumptions vhost_root_under_server_root.
+
+(* mod_evhost: no piece taken from a '/'-free Host contains a '/' *)
+Theorem evhost_pieces_have_no_slash : forall auth p,
+  noslash auth -> match p with PLit _ => True | _ => noslash (piece_value auth (parse_host auth) p) end.
+Proof. exact evhost_host_adds_no_slash. Qed.
+Print Assumptions evhost_pieces_have_no_slash.
+
+(* mod_userdir (basepath variant): the user directory and the file below it extend userdir.basepath and are dot-free *)
+Theorem userdir_under_basepath : forall c uri p b,
+  nodot (ud_base c) -> (forall up, ud_path c = Some up -> nodot up) -> nodot uri ->
+  userdir c uri = UdTo p b ->
+  nodot p /\ nodot b /\ (exists rest, b = ud_base c ++ rest) /\ (exists rest, p = b ++ rest).
+Proof. exact userdir_contained. Qed.
+Print Assumptions userdir_under_basepath.
+
+(* X-Sendfile / X-Sendfile2: the file sent is simplify(urldecode(value)), dot-free, and extends one of the x-sendfile-docroot entries
+   (which the configuration code simplifies and ends with '/').  The step order is the one found in the source by tools/c2v_roots.py *)
+Theorem xsendfile_path_under_docroot : forall u roots p q,
+  xsendfile u roots p = XsSend q ->
+  q = simplify (urldecode_path p) /\ nodot q /\ (roots <> [] -> exists r rest, In r roots /\ q = r ++ rest).
+Proof. exact xsendfile_contained. Qed.
+Print Assumptions xsendfile_path_under_docroot.
+Theorem xsendfile2_path_under_docroot : forall u roots p q,
+  xsendfile2 u roots p = XsSend q ->
+  q = simplify (urldecode_path p) /\ nodot q /\ (roots <> [] -> exists r rest, In r roots /\ q = r ++ rest).
+Proof. exact xsendfile2_contained. Qed.
+Print Assumptions xsendfile2_path_under_docroot.
+
+(* WebDAV COPY/MOVE: the Destination's filesystem path is dot-free and extends the document root or a prefix of the source's physical
+   path at least as long as its base directory (the alias target when the tree is aliased) *)
+Theorem webdav_destination_contained : forall u scheme auth rel phys basedir docroot dest d dp,
+  nodot phys -> nodot docroot -> absp rel ->
+  dav_dest u scheme auth rel phys basedir docroot dest = DPath d dp ->
+  nodot d /\ absp d /\ nodot dp /\
+  ((exists rest, dp = docroot ++ rest) \/
+   (exists n rest, (length basedir - (if ends_slash_b basedir then 1 else 0) <= n)%nat /\ dp = firstn n phys ++ rest)).
+Proof. exact dav_dest_contained. Qed.
+Print Assumptions webdav_destination_contained.
+
+(* server.follow-symlink = "disable": answer 0 means neither the name nor any ancestor directory is a symbolic link *)
+Theorem no_symlink_on_accepted_path : forall lst name,
+  contains_symlink lst name = 0%Z -> (1 < length name)%nat ->
+  forall j, (0 < j)%nat -> (j = length name \/ ((j < length name)%nat /\ nth j name 0 = slash)) -> lst (firstn j name) = Some false.
+Proof. exact contains_symlink_sound. Qed.
+Print Assumptions no_symlink_on_accepted_path.
+
+(* the whole way from the request target to physical.path (docroot choice, join, alias, userdir) *)
+Theorem request_target_to_physical_path : forall isdir flags c auth target t' path q dr b p,
+  conf_ok c -> (c_strict c = true -> host_ok auth) ->
+  parse_target flags target = TOk t' path q ->
+  physical isdir c auth path = Phys dr b p ->
+  nodot p /\ nodot b /\ (exists rest, p = b ++ rest) /\ designated c dr b.
+Proof. exact target_to_physical. Qed.
+Print Assumptions request_target_to_physical_path.
